@@ -231,7 +231,28 @@ def run_check(pid, tier, seed):
         for fu in futs:
             results.append(fu.result())
     harness_err = False
-    for r in results:
+    for r, (st, _argv, _tag) in zip(results, jobs):
+        if r["res"] is None and st.get("crash_is_violation"):
+            # the child died (fatal error / OOM / stack overflow): the input it was working on is on disk
+            tail = ""
+            try:
+                tail = open(r["log"], errors="replace").read()[-4000:]
+            except OSError:
+                pass
+            wit = st["crash_witness"].format(shard=_argv[_argv.index("-shard") + 1])
+            whex = ""
+            try:
+                b = open(wit, "rb").read()
+                n = int.from_bytes(b[:4], "little")
+                whex = b[8:8 + n].hex()
+            except OSError:
+                pass
+            m = re.search(r"(fatal error: [^\n]*|panic: [^\n]*|signal: [^\n]*)", tail)
+            reason = m.group(1) if m else "child exited with status %s without a result" % r["rc"]
+            r["res"] = dict(evaluations=0, samples=[], counters={}, violations=[dict(sig="crash:" + reason[:60],
+                            desc="child process died while decoding (%s); input %s" % (reason, whex[:200]),
+                            replay=dict(check=pid, input_full_hex=whex, log_tail=tail[-1500:]))], n_violations=1, inconclusive=[])
+            continue
         if r["res"] is None:
             harness_err = True
             log("ERROR property=%s child %s produced no result (rc=%s); see %s" % (pid, r["tag"], r["rc"], r["log"]))
